@@ -1214,6 +1214,9 @@ var _ rpc.Resources
 //@   assumes predSubsOK(c)
 //@   requires[C04] predConnOK(c) && predSubOf(sub, c) && err == nil
 //@   resolves[C07] cb exactly-once
+// (the response that hands the resources over is written before the events held for them are
+// released: a client applies what it receives in order)
+//@   assert[C01,C03] sub.ReleaseRPCResources#1: resolved(cb) == 1
 //@   ensures[C08] old(sub.Error()) != nil && !old(c.disposing) && old(predCounts(sub)) != 0 ==> sub.direct == ite(old(sub.direct) >= 1, old(sub.direct) - 1, 0)
 //@   safety[C15]
 
@@ -1232,6 +1235,9 @@ var _ rpc.Resources
 //@   assumes predSubsOK(c)
 //@   requires[C04] predConnOK(c) && predSubOf(sub, c) && err == nil
 //@   resolves[C07] cb exactly-once
+// (the response that hands the resources over is written before the events held for them are
+// released: a client applies what it receives in order)
+//@   assert[C01,C03] sub.ReleaseRPCResources#1: resolved(cb) == 1
 //@   ensures[C08] old(sub.Error()) != nil && !old(c.disposing) && old(predCounts(sub)) != 0 ==> sub.direct == ite(old(sub.direct) >= 1, old(sub.direct) - 1, 0)
 //@   safety[C15]
 
@@ -1252,6 +1258,9 @@ var _ rpc.Resources
 //@ closure (*wsConn).handleResourceResult#2
 //@   requires[C04] predConnOK(c) && predSubOf(sub, c) && err == nil
 //@   resolves[C07] cb exactly-once
+// (the response that hands the resources over is written before the events held for them are
+// released: a client applies what it receives in order)
+//@   assert[C01,C03] sub.ReleaseRPCResources#1: resolved(cb) == 1
 //@   safety[C15]
 
 //@ func (*wsConn).handleCallAuthResponse
@@ -1335,6 +1344,9 @@ var _ rpc.Resources
 //@   requires[C04,C17] predConnOK(c) && predSubOf(sub, c) && access != nil && access.Error == nil && access.AccessResult != nil && access.Get
 //@   assumes predSubsOK(c)
 //@   resolves[C07] cb exactly-once
+// (the response that hands the resources over is written before the events held for them are
+// released: a client applies what it receives in order)
+//@   assert[C01,C16] sub.ReleaseRPCResources#1: resolved(cb) == 1
 //@   callback cb requires[C04] arg0 != nil ==> arg0 == sub && arg2 == nil
 //@   safety[C15]
 
